@@ -140,13 +140,18 @@ def hostile_stmt(rng, kind):
         return ["$e = 'got {$t}' + 3"], True, False
     if kind == "event-text-only":
         return ['$e = "got {$t}"', "$f = $e + 3"], True, False  # the first statement only fails if the interpolated literal is invalid
+    if kind == "multiline":
+        # a triple-quoted literal spanning two source lines: the error text contains a RAW newline (and whatever else the literal holds)
+        tq = q * 3
+        inner = lit[1:-1].replace(tq, "")
+        return [f"$e = {tq}x {inner}\ny{tq} + 3"], False, False
     if kind == "match-arg":
         return [f"match M(x={lit} + 3)"], False, True
     raise ValueError(kind)
 
 
 STMT_KINDS = ["concat", "concat", "concat-two", "regex", "send-arg", "if-cond", "event-text", "event-text", "event-text-len", "event-text-sq",
-              "event-text-only", "match-arg"]
+              "event-text-only", "match-arg", "multiline", "multiline"]
 
 
 # ----------------------------------------------------------------------------- static analysis of a handler flow
